@@ -240,6 +240,17 @@ class Interp:
             if i is not None and i[0] == 'int' and isinstance(i[1], int) and -len(base[1]) <= i[1] < len(base[1]):
                 return base[1][i[1]]
             return None
+        if base[0] == 'obj':
+            # indexing a Taylor-polynomial object addresses its element axes; the coefficient and direction axes stay in front
+            saved = self.env.get('<objtmp>')
+            self.env['<objtmp>'] = arr(base[1][2:])
+            fake = ast.copy_location(ast.Subscript(value=ast.Name(id='<objtmp>', ctx=ast.Load()), slice=sl, ctx=ast.Load()), n)
+            r_ = self.subscript(fake)
+            if saved is None:
+                self.env.pop('<objtmp>', None)
+            else:
+                self.env['<objtmp>'] = saved
+            return ('obj', tuple(base[1][:2]) + tuple(r_[1])) if r_ is not None and r_[0] == 'arr' else None
         if base[0] != 'arr':
             return None
         dims = list(base[1])
@@ -280,6 +291,13 @@ class Interp:
                 v = self.ev(e)
                 if v is not None and v[0] == 'arr' and len(v[1]) > 0:
                     return None         # fancy indexing
+                if v is not None and v[0] == 'idx' and pos < len(dims):
+                    ax = self.ctx.res(dims[pos])
+                    if isinstance(ax, str) and '-' not in ax and '-' not in v[1] and not self.ctx.same(ax, v[1]):
+                        rel = getattr(self.ctx, 'order', {})
+                        small = rel.get((ax, v[1])) or rel.get((v[1], ax))
+                        if small != v[1]:       # running over the smaller extent is always in range
+                            self.ctx.conflict(n, 'the index `%s` runs over an extent %s but indexes an axis of extent %s: `%s`' % (norm(e), v[1], ax, norm(n)[:60]))
                 pos += 1
         out.extend(dims[pos:])
         return arr(out)
@@ -352,6 +370,19 @@ class Interp:
                 return ('int', len(v[1]))
             if v is not None and v[0] == 'arr' and v[1]:
                 return ('int', v[1][0])
+            return None
+        if d in ('min', 'max') and len(args) == 1:
+            v = self.ev(args[0])
+            if v is not None and v[0] == 'shp' and len(v[1]) == 2:
+                a, b = ('int', v[1][0]), ('int', v[1][1])
+                da, db = c.res(a[1]), c.res(b[1])
+                if is_known(da) and da == db:
+                    return ('int', da)
+                rel = getattr(c, 'order', {})
+                if (da, db) in rel or (db, da) in rel:
+                    small = rel.get((da, db)) or rel.get((db, da))
+                    return ('int', small if d == 'min' else (db if small == da else da))
+                return ('int', U())
             return None
         if d in ('min', 'max') and len(args) == 2:
             a, b = self.ev(args[0]), self.ev(args[1])
@@ -631,7 +662,15 @@ class Interp:
         elif isinstance(st, ast.Expr):
             self.ev(st.value)
         elif isinstance(st, ast.For):
-            if isinstance(st.target, ast.Name):
+            rng = None
+            if isinstance(st.target, ast.Name) and isinstance(st.iter, ast.Call) and isinstance(st.iter.func, ast.Name) and st.iter.func.id == 'range' \
+                    and len(st.iter.args) == 1:
+                b = self.ev(st.iter.args[0])
+                if b is not None and b[0] == 'int' and isinstance(self.ctx.res(b[1]), str):
+                    rng = self.ctx.res(b[1])
+            if rng is not None:
+                self.env[st.target.id] = ('idx', rng)          # an index that runs over the whole extent `rng`
+            elif isinstance(st.target, ast.Name):
                 self.env[st.target.id] = ('int', U())
             elif isinstance(st.target, ast.Tuple):
                 for e in st.target.elts:
